@@ -7,7 +7,7 @@ ASSUMPTIONS = ['moodycamel::BlockingConcurrentQueue replaced by its contract mod
                'documented precondition of ~ResourcePool: all Resource handles were destroyed before the pool',
                'the program itself is deadlock free: sum over threads of (resources held at once - 1) < pool size',
                'sequential consistency; interleaving granularity = queue operation + one scheduling point inside every holding section']
-OUTSIDE = ('pool sizes above 3; more than 3 threads / 2 cycles per thread / the stated scheduler rounds; the real moodycamel queue '
+OUTSIDE = ('pool sizes above 2 (size 3 only in the not-run extended instance); more than 3 threads / 2 cycles per thread / the stated scheduler rounds; the real moodycamel queue '
            '(its semaphore, per-producer sub-queues, allocation failure in enqueue); weak-memory reorderings; init functors that throw')
 
 KIT = {'src': 'rp_conc.cpp', 'engine': 'cbmc-seq', 'shims': ['moodycamel'], 'models': ['aligned_alloc'],
@@ -35,18 +35,19 @@ INSTANCES = [
          'handle and self-move-assignment; ' + R % 3 + ' (thorough: 5)', thorough={'steps': 5}),
     conc('conc_s2_assign', 2, ((2, -1), (0, 0)), 3, ['quick', 'thorough'],
          'pool size 2; thread 1: holds two resources and move-assigns one handle onto the other live handle; thread 2: 2 plain cycles; '
-         + R % 3 + ' (thorough: 4)', thorough={'steps': 4}),
-    conc('conc_s2_3t', 2, ((0, -1), (1, -1), (4, -1)), 4, ['thorough'],
+         + R % 3),
+    conc('conc_s2_3t', 2, ((0, -1), (1, -1), (4, -1)), 3, ['thorough'],
          'pool size 2; 3 threads x 1 cycle: plain | move-constructed handle | fresh acquire() assigned onto a live handle; '
-         + R % 4),
-    conc('conc_s3_3t', 3, ((2, -1), (4, -1), (9, 9)), 4, ['thorough'],
+         + R % 3),
+    # tier 'extended' is not run by ./check: these bounds did not finish inside the time-outs on the (heavily loaded) build machine
+    conc('conc_s3_3t', 3, ((2, -1), (4, -1), (9, 9)), 4, ['extended'],
          'pool size 3; 3 threads: move-assignment onto a live handle | acquire() assigned onto a live handle | '
          '2 cycles of symbolic kind (plain, move-constructed, move-assigned onto moved-from + self-assignment); ' + R % 4, symsize=0),
     {'name': 'seq_history', 'src': 'rp_seq.cpp', 'engine': 'cbmc', 'shims': ['moodycamel'], 'models': ['aligned_alloc'],
      'defs': {'VF_SIZE': 2, 'VF_SYMSIZE': 0, 'VF_OPS': 3, 'VF_SLOTS': 3, 'VF_MQ_CAP': 4}, 'unwind': 5, 'timeout': 1500,
      'tiers': ['quick', 'thorough'],
-     'bounds': 'pool size 2 (thorough: symbolic 1..3); 3 handle slots; every history of 3 (thorough: 4) operations out of: acquire into a '
+     'bounds': 'pool size 2; 3 handle slots; every history of 3 operations out of: acquire into a '
                'fresh handle, acquire() assigned onto an existing handle, destroy, move-construct, move-assign (incl. self, live onto live, '
                'onto/from moved-from), get(); then all handles destroyed and ~ResourcePool; queue model capacity size+2',
-     'thorough': {'defs': {'VF_SIZE': 3, 'VF_SYMSIZE': 1, 'VF_OPS': 4, 'VF_SLOTS': 3, 'VF_MQ_CAP': 5}, 'unwind': 6}},
+     'extended': {'defs': {'VF_SIZE': 3, 'VF_SYMSIZE': 1, 'VF_OPS': 4, 'VF_SLOTS': 3, 'VF_MQ_CAP': 5}, 'unwind': 6}},
 ]
